@@ -99,7 +99,7 @@ var pureMethods = map[string]bool{
 	"(time.Time).Nanosecond": true, "(time.Time).UnixMicro": true,
 	"(reflect.Value).Len": true, "(reflect.Value).NumField": true, "(reflect.Value).Kind": true,
 	"(reflect.Value).Int": true, "(reflect.Value).Uint": true,
-	"(reflect.Type).NumField": true, "(reflect.Type).Kind": true,
+	"(reflect.Type).NumField": true, "(reflect.Type).Kind": true, "(reflect.Type).Name": true,
 }
 
 func typeRange(w *World, t types.Type) (ISet, bool) {
